@@ -55,6 +55,29 @@ def runtime_failure(k: str, i: int, n: int) -> None:
     hlib.done()
 
 
+def ast_names_budget(n: int, a: int) -> None:
+    """
+    pre: 1 <= n <= 30
+    post: True
+    """
+    # the op budget running out while a pre-parsed ast_names definition is evaluated is reported like any other overrun
+    hlib.enter(locals())
+    from sqv.api import CACHED
+    definition = CACHED.parse("l | map(v => v + a) | sum")
+    raised = None
+    try:
+        CACHED.eval("total + a", {'l': [a, a, a], 'a': a}, ast_names={'total': definition}, max_ops_evaluated=n)
+    except Exception as e:
+        raised = e
+    except BaseException as e:          # noqa: a non-Exception escaping IS the violation
+        if type(e).__module__.startswith('crosshair'):
+            raise
+        raise AssertionError("something that is not an ordinary Exception escaped from eval: %s" % type(e).__name__)
+    if raised is not None:
+        assert isinstance(raised, ParserError), "budget overrun inside ast_names escaped as %s" % type(raised).__name__
+    hlib.done()
+
+
 class _Tok:
     def __init__(self, type_, value, lineno, lexer_):
         self.type = type_
